@@ -107,8 +107,34 @@ def location_spelling_bounded(ctx):
                        {"inferred_root": str(inferred), "absolute_only": sorted(map(str, (abs_run - rel_run).keys())),
                         "relative_only": sorted(map(str, (rel_run - abs_run).keys())),
                         "directory_baseline": sorted(map(str, results['plain'].keys()))})
+        # (a') a project directory whose NAME contains dots, given itself as the target (absolute, and relative from its
+        # parent), through the CLI plumbing with auto-detected root: same violations as anywhere else
+        from src.cli.utils import execute_linting_on_paths, get_or_detect_project_root, setup_base_orchestrator
+        for dotted in ("my.site-1.2", "thai-lint-0.15", "v2.final"):
+            droot = os.path.join(base, "releases", dotted)
+            os.makedirs(droot)
+            _make_project(droot)
+            for cwd, target in ((base, pathlib.Path(droot)), (os.path.join(base, "releases"), pathlib.Path(dotted)),
+                                (droot, pathlib.Path("."))):
+                os.chdir(cwd)
+                clear_ignore_parser_cache()
+                det = get_or_detect_project_root([target], None)
+                cases += 1
+                if os.path.realpath(str(det)) != os.path.realpath(droot):
+                    return bad("project-root detection takes a dotted directory name for a file",
+                               {"cwd": cwd, "target": str(target), "detected": str(det), "expected": droot})
+                if cwd not in (base, droot):
+                    continue  # relative spelling from a directory that is not the root: recorded finding C09-ignore-relative-spelling
+                o = setup_base_orchestrator([target], None, False)
+                run = _rel_key(execute_linting_on_paths(o, [target], True), droot)
+                cases += 1
+                if run != results["plain"]:
+                    return bad("the same project under a dotted directory name reports different violations",
+                               {"directory": dotted, "cwd": cwd, "target": str(target),
+                                "only_here": sorted(map(str, (run - results['plain']).keys()))[:6],
+                                "only_in_plain": sorted(map(str, (results['plain'] - run).keys()))[:6]})
+            os.chdir(cwd0)
         # (c) project-root detection: every spelling of a target inside the project detects the same root
-        from src.cli.utils import get_or_detect_project_root
         real_root = os.path.realpath(root)
         os.chdir(os.path.join(root, "src"))
         spellings = [pathlib.Path(root) / "src" / "a.py", pathlib.Path("a.py"), pathlib.Path("pkg/b.py"), pathlib.Path("."),
